@@ -196,8 +196,7 @@ def run(res, tier, seed):
                 k += 1
     # the abstract machine extended with exec: afterwards alt/paste/focus as before, cursor hidden, mouse off
     rows_def = "Definition rows : list (nat * opts * list hstep * list tok * list tok) := [%s]."
-    body = ["Inductive hstep := HC (c : modecmd) | HExec.",
-            "Definition hist_apply (m : modes) (h : hstep) : modes := match h with HC c => Spec.Modes.apply m c | HExec => mk_modes (a_alt m) true false false false (a_paste m) (a_focus m) end.",
+    body = ["Definition hstep_ := hstep.", "Definition hist_apply_ := hist_apply.",
             "Definition at_handover_ok (x : nat * opts * list hstep * list tok * list tok) : bool := let '(_, o, h, before, after) := x in "
             "forallb (fun sh => modes_eqb (vt_modes (vt_run sh (vt_init 80 24 [] 0) before)) defaults) [true; false].",
             "Definition after_ok (x : nat * opts * list hstep * list tok * list tok) : bool := let '(_, o, h, before, after) := x in "
